@@ -154,6 +154,8 @@ func (p *printer) typNoAlias(t *Type) {
 
 func (p *printer) printDecl(d Decl) {
 	switch {
+	case d.Raw != "":
+		p.tok(d.Raw, "raw")
 	case d.Struct != nil:
 		t := d.Struct
 		p.tok("struct", "kw")
@@ -212,8 +214,12 @@ func (p *printer) globalVar(v *Var) {
 	switch v.Kind {
 	case VGlobal:
 		if v.Space == "storage" || v.Space == "uniform" {
-			p.attr("group", strconv.Itoa(v.Group))
-			p.attr("binding", strconv.Itoa(v.Binding))
+			if !v.DropGroup {
+				p.attr("group", strconv.Itoa(v.Group))
+			}
+			if !v.DropBinding {
+				p.attr("binding", strconv.Itoa(v.Binding))
+			}
 		}
 		p.tok("var", "kw")
 		if v.Space != "" {
@@ -271,6 +277,10 @@ func (p *printer) fnDecl(f *Func) {
 	switch f.Stage {
 	case "compute":
 		p.attr("compute")
+		if f.NoWGSize {
+			p.nl()
+			break
+		}
 		p.tokG("@", "punct", false, true)
 		p.tok("workgroup_size", "kw")
 		p.open("(", "attr")
@@ -458,6 +468,8 @@ func (p *printer) stmt(s Stmt) {
 		p.tok("const_assert", "kw")
 		p.expr(s.X, true)
 		p.semi("const_assert")
+	case *RawStmt:
+		p.tok(s.Text, "raw")
 	default:
 		panic(fmt.Sprintf("print: unknown stmt %T", s))
 	}
@@ -609,6 +621,8 @@ func (p *printer) expr(e Expr, top bool) {
 		p.tok(s, role)
 	case *Ref:
 		p.tok(e.V.Name, "ident")
+	case *RawExpr:
+		p.tok(e.Text, "raw")
 	case *Materialize:
 		p.expr(e.X, top)
 	case *Paren:
@@ -691,7 +705,11 @@ func (p *printer) expr(e Expr, top bool) {
 		p.postfixBase(e.X)
 		p.tokG(".", "punct", true, true)
 		st := derefType(e.X.T())
-		p.tok(st.Members[e.Idx].Name, "ident")
+		if e.Raw != "" {
+			p.tok(e.Raw, "ident")
+		} else {
+			p.tok(st.Members[e.Idx].Name, "ident")
+		}
 	case *Swiz:
 		p.postfixBase(e.X)
 		p.tokG(".", "punct", true, true)
@@ -703,7 +721,11 @@ func (p *printer) expr(e Expr, top bool) {
 		for _, c := range e.Comps {
 			sb.WriteByte(set[c])
 		}
-		p.tok(sb.String(), "ident")
+		if e.Raw != "" {
+			p.tok(e.Raw, "ident")
+		} else {
+			p.tok(sb.String(), "ident")
+		}
 	case *AddrOf:
 		if !top {
 			p.open("(", "paren")
@@ -737,7 +759,7 @@ func derefType(t *Type) *Type {
 // postfixBase prints the base of a postfix expression (needs parens around unary/binary/deref/addr-of/neg literals).
 func (p *printer) postfixBase(x Expr) {
 	switch x.(type) {
-	case *Ref, *CallE, *Builtin, *Cons, *Index, *Field, *Swiz, *Paren:
+	case *Ref, *CallE, *Builtin, *Cons, *Index, *Field, *Swiz, *Paren, *RawExpr:
 		p.expr(x, false)
 	case *Materialize:
 		p.postfixBase(x.(*Materialize).X)
